@@ -68,12 +68,15 @@ CLAIMED = {
                      'transposition is checked bounded on seeded scenes.',
                 note='relational two-run property: only the index arithmetic is proved'),
     'C04': dict(engine='pyvc', technique=f'{_T} (candidate pixels, threshold formula, connectivity '
-                                         f'structure) + {_B}: exhaustive small-scope enumeration '
+                                         f'structure, npixels pruning, relabelling) + {_B}: exhaustive small-scope enumeration '
                                          'vs union-find oracle',
                 text='Proved for all images: the pixels handed to the labeller are exactly the '
                      'finite, unmasked pixels strictly above the (scalar or per-pixel) threshold; '
                      'detect_threshold = background + nsigma*error pixel-wise; the 4-/8-connected '
-                     'structure element. The labelling itself (scipy.ndimage) is checked by '
+                     'structure element; a labelled component is dropped (zeroed, nothing else '
+                     'touched) exactly when fewer than npixels pixels carry its label; the k-th '
+                     'kept label becomes k+1 and the label list handed on is 1..N. The labelling '
+                     'itself (scipy.ndimage) is checked by '
                      'exhaustive enumeration of small images against a union-find oracle.',
                 note='scipy label/find_objects are exercised bounded, not assumed; non-finite = NaN '
                      '(+-inf outside the real-number model)'),
